@@ -174,6 +174,11 @@ def evaluate(case) -> Result:
                     res.classes.append("destination-host:" + ("a-peer" if dest % (len(case["peers"]) + 1) < len(case["peers"]) else "not-a-peer"))
                 e2e_next[0] += 1
                 msg.header.end_to_end_identifier = e2e_next[0]
+                if own_hbh:
+                    # the caller has numbered the request itself (the node sets the identifier "if not already
+                    # present"); values that no generator hands out in these runs and that differ per request
+                    msg.header.hop_by_hop_identifier = 0x6000 + len(sends)
+                    res.classes.append("hop-by-hop:set-by-caller")
                 R_ = realm if realm is not None else NODE_REALM
                 rp = ready_peers()
                 lst = routes.get(R_, {}).get(ai)
@@ -213,6 +218,8 @@ def evaluate(case) -> Result:
                         rec_["frame"], rec_["conn"] = f, i
                         if f.h["hbh"] == 0:
                             res.v("C10/zero-hop-by-hop", desc)
+                        if own_hbh and f.h["hbh"] != 0x6000 + len(sends) - 1:
+                            res.v("C10/caller-hop-by-hop-replaced", f"{desc}: the caller set {0x6000 + len(sends) - 1:#x}, the request left with {f.h['hbh']:#x}")
                         clash = [s for s in sends[:-1] if s["conn"] == i and s["frame"] is not None and
                                  not s["call"]["box"]["done"] and s["frame"].h["hbh"] == f.h["hbh"]]
                         if clash:
@@ -782,7 +789,7 @@ def run(tier, scale=1.0):
     rec = Recorder(PID)
     for d in hyp.pool_run(shard_main, (tier, scale)):
         rec.merge(d)
-    required = {"request:untyped": 1, "request:no-destination-realm": 1, "destination-host:a-peer": 1, "destination-host:not-a-peer": 1, "answer-vs-timeout": 1, "slow-selection:chosen-lost:True": 1, "slow-selection:outcome:sent": 1, "slow-selection:outcome:not-routable": 1,
+    required = {"hop-by-hop:set-by-caller": 1, "request:untyped": 1, "request:no-destination-realm": 1, "destination-host:a-peer": 1, "destination-host:not-a-peer": 1, "answer-vs-timeout": 1, "slow-selection:chosen-lost:True": 1, "slow-selection:outcome:sent": 1, "slow-selection:outcome:not-routable": 1,
                 "slow-selection:redialled:True": 1, "send-vs-loss": 1, "equal-hop-by-hop-two-connections": 1, "schedule-exploration": 1, "senders:3": 1, "npeers:4": 1, "napps:3": 1, "select:first": 1, "select:None": 1, "state:waiting-dwa": 1,
                 "state:disconnecting": 1, "state:disconnecting-late-dwa": 1, "state:awaiting": 1, "state:closed": 1, "sends:4": 1}
     return finish(rec, tier=tier, level="exploration", rule=RULE, assumptions=ASSUME, t0=t0,
